@@ -22,8 +22,9 @@ def zipW {α β γ} (f : α → β → γ) : Nat → α → List (Nat × α) →
   | n + 1, _, (s, v) :: r, b, [] => (s, f v b) :: zipW f n v r b []
   | n + 1, a, [], _, (t, w) :: q => (t, f a w) :: zipW f n a [] w q
   | n + 1, a, (s, v) :: r, b, (t, w) :: q =>
-    if s < t then (s, f v b) :: zipW f n v r b ((t, w) :: q)
-    else if t < s then (t, f a w) :: zipW f n a ((s, v) :: r) w q
+    -- `Nat.blt` on literals is a single kernel (GMP) step; `if s < t` would unfold a `Decidable` instance
+    bif Nat.blt s t then (s, f v b) :: zipW f n v r b ((t, w) :: q)
+    else bif Nat.blt t s then (t, f a w) :: zipW f n a ((s, v) :: r) w q
     else (s, f v w) :: zipW f n v r w q
 
 theorem eval_zipW {α β γ} (f : α → β → γ) (n : Nat) (a : α) (r : List (Nat × α)) (b : β)
@@ -50,7 +51,7 @@ theorem eval_zipW {α β γ} (f : α → β → γ) (n : Nat) (a : α) (r : List
       · rw [ih]; · simp [eval]
         · simp at h ⊢; omega
     | (s, v) :: r, (t, w) :: q =>
-      simp only [zipW]
+      simp only [zipW, Bool.cond_eq_ite, Nat.blt_eq]
       by_cases hst : s < t
       · simp only [hst, if_true, eval]
         by_cases hc : cp < s
@@ -77,6 +78,41 @@ theorem eval_zipW {α β γ} (f : α → β → γ) (n : Nat) (a : α) (r : List
             rw [ih]
             simp at h ⊢; omega
 
+/-- beyond the last breakpoint the value is the last one -/
+theorem eval_of_all_le {α} (d : α) (l : List (Nat × α)) (cp : Nat)
+    (h : l.all (fun x => decide (x.1 ≤ cp)) = true) : eval d l cp = ((l.getLast?).map (·.2)).getD d := by
+  induction l generalizing d with
+  | nil => rfl
+  | cons x r ih =>
+    obtain ⟨s, v⟩ := x
+    simp only [List.all_cons, Bool.and_eq_true, decide_eq_true_eq] at h
+    have : ¬ cp < s := by omega
+    simp only [eval, this, if_false]
+    rw [ih v h.2]
+    cases r with
+    | nil => rfl
+    | cons y r' =>
+      simp only [List.getLast?_cons_cons]
+      have : ((y :: r').getLast?).isSome = true := by simp
+      cases hg : (y :: r').getLast? with
+      | none => simp [hg] at this
+      | some z => rfl
+
+/-- bounded universal check with shallow kernel recursion -/
+def allBelow (f : Nat → Bool) : Nat → Bool
+  | 0 => true
+  | n + 1 => f n && allBelow f n
+
+theorem allBelow_sound (f : Nat → Bool) (n : Nat) (h : allBelow f n = true) (k : Nat) (hk : k < n) :
+    f k = true := by
+  induction n with
+  | zero => omega
+  | succ n ih =>
+    simp only [allBelow, Bool.and_eq_true] at h
+    by_cases e : k = n
+    · subst e; exact h.1
+    · exact ih h.2 (by omega)
+
 /-- map over the values of a step function -/
 def mapV {α β} (g : α → β) : List (Nat × α) → List (Nat × β)
   | [] => []
@@ -93,21 +129,37 @@ theorem eval_mapV {α β} (g : α → β) (d : α) (l : List (Nat × α)) (cp : 
     · rfl
     · exact ih v
 
-/-- every value (default included) satisfies `p` -/
+/-- the default value is never used when the first breakpoint starts at 0 -/
+def defaultUnused {α} : List (Nat × α) → Bool
+  | (0, _) :: _ => true
+  | _ => false
+
+/-- every value (the default too, unless it is never used) satisfies `p` -/
 def allV {α} (p : α → Bool) (d : α) (l : List (Nat × α)) : Bool :=
-  p d && l.all (fun x => p x.2)
+  (defaultUnused l || p d) && l.all (fun x => p x.2)
+
+theorem allV_eval_aux {α} (p : α → Bool) (d : α) (l : List (Nat × α))
+    (hd : p d = true) (h : l.all (fun x => p x.2) = true) (cp : Nat) : p (eval d l cp) = true := by
+  induction l generalizing d with
+  | nil => simpa [eval] using hd
+  | cons x r ih =>
+    obtain ⟨s, v⟩ := x
+    simp only [List.all_cons, Bool.and_eq_true] at h
+    simp only [eval]
+    split
+    · exact hd
+    · exact ih v h.1 h.2
 
 theorem allV_eval {α} (p : α → Bool) (d : α) (l : List (Nat × α)) (h : allV p d l = true) (cp : Nat) :
     p (eval d l cp) = true := by
-  induction l generalizing d with
-  | nil => simp [allV] at h; simpa [eval] using h
-  | cons x r ih =>
-    obtain ⟨s, v⟩ := x
-    simp only [allV, List.all_cons, Bool.and_eq_true] at h
-    simp only [eval]
-    split
-    · exact h.1
-    · apply ih; simp [allV, h.2.1, h.2.2]
+  simp only [allV, Bool.and_eq_true, Bool.or_eq_true] at h
+  rcases h.1 with hu | hd
+  · match l, hu, h.2 with
+    | (0, v) :: r, _, h2 =>
+      simp only [List.all_cons, Bool.and_eq_true] at h2
+      simp only [eval, Nat.not_lt_zero, if_false]
+      exact allV_eval_aux p v r h2.1 h2.2 cp
+  · exact allV_eval_aux p d l hd h.2 cp
 
 /-- drop a breakpoint that is immediately overridden by one with the same start
 (adjacent table entries produce such pairs) -/
@@ -155,5 +207,73 @@ theorem agree_eval {α} [DecidableEq α] (n : Nat) (a : α) (r : List (Nat × α
 def firstDiff {α} [DecidableEq α] (n : Nat) (a : α) (r : List (Nat × α)) (b : α) (q : List (Nat × α)) : Option Nat :=
   let z := dedup (zipW (fun x y => decide (x = y)) n a r b q)
   if decide (a = b) = false then some 0 else (z.find? (fun x => !x.2)).map (·.1)
+
+end Precis.Step
+
+/-! ### fuel-free combinators (the fuel is computed from the operands) -/
+namespace Precis.Step
+
+/-- pointwise combination; unconditional correctness -/
+def zipA {α β γ} (f : α → β → γ) (a : α) (r : List (Nat × α)) (b : β) (q : List (Nat × β)) :
+    List (Nat × γ) := zipW f (r.length + q.length) a r b q
+
+theorem eval_zipA {α β γ} (f : α → β → γ) (a : α) (r : List (Nat × α)) (b : β)
+    (q : List (Nat × β)) (cp : Nat) :
+    eval (f a b) (zipA f a r b q) cp = f (eval a r cp) (eval b q cp) :=
+  eval_zipW f _ a r b q cp (Nat.le_refl _)
+
+/-- a step function with its default value -/
+structure SF (α : Type) where
+  d : α
+  bps : List (Nat × α)
+
+def SF.at {α} (s : SF α) (cp : Nat) : α := eval s.d s.bps cp
+
+def SF.zip {α β γ} (f : α → β → γ) (x : SF α) (y : SF β) : SF γ :=
+  ⟨f x.d y.d, zipA f x.d x.bps y.d y.bps⟩
+
+@[simp] theorem SF.zip_at {α β γ} (f : α → β → γ) (x : SF α) (y : SF β) (cp : Nat) :
+    (SF.zip f x y).at cp = f (x.at cp) (y.at cp) := eval_zipA f x.d x.bps y.d y.bps cp
+
+def SF.map {α β} (g : α → β) (x : SF α) : SF β := ⟨g x.d, mapV g x.bps⟩
+
+@[simp] theorem SF.map_at {α β} (g : α → β) (x : SF α) (cp : Nat) : (SF.map g x).at cp = g (x.at cp) :=
+  eval_mapV g x.d x.bps cp
+
+def SF.const {α} (v : α) : SF α := ⟨v, []⟩
+@[simp] theorem SF.const_at {α} (v : α) (cp : Nat) : (SF.const v).at cp = v := rfl
+
+def SF.or (x y : SF Bool) : SF Bool := SF.zip (· || ·) x y
+def SF.and (x y : SF Bool) : SF Bool := SF.zip (· && ·) x y
+def SF.not (x : SF Bool) : SF Bool := SF.map (!·) x
+/-- `if c then v else e` -/
+def SF.cond {α} (c : SF Bool) (v : α) (e : SF α) : SF α := SF.zip (fun b x => if b then v else x) c e
+/-- `o.getD e` -/
+def SF.orElse {α} (o : SF (Option α)) (e : SF α) : SF α := SF.zip (fun o x => o.getD x) o e
+
+@[simp] theorem SF.or_at (x y : SF Bool) (cp : Nat) : (x.or y).at cp = (x.at cp || y.at cp) := SF.zip_at _ x y cp
+@[simp] theorem SF.and_at (x y : SF Bool) (cp : Nat) : (x.and y).at cp = (x.at cp && y.at cp) := SF.zip_at _ x y cp
+@[simp] theorem SF.not_at (x : SF Bool) (cp : Nat) : x.not.at cp = !x.at cp := SF.map_at _ x cp
+@[simp] theorem SF.cond_at {α} (c : SF Bool) (v : α) (e : SF α) (cp : Nat) :
+    (SF.cond c v e).at cp = if c.at cp then v else e.at cp := SF.zip_at _ c e cp
+@[simp] theorem SF.orElse_at {α} (o : SF (Option α)) (e : SF α) (cp : Nat) :
+    (SF.orElse o e).at cp = (o.at cp).getD (e.at cp) := SF.zip_at _ o e cp
+
+/-- all effective values satisfy `p` -/
+def SF.all {α} (p : α → Bool) (x : SF α) : Bool := allVD p x.d x.bps
+
+theorem SF.all_at {α} (p : α → Bool) (x : SF α) (h : x.all p = true) (cp : Nat) : p (x.at cp) = true :=
+  allVD_eval p x.d x.bps h cp
+
+/-- the two step functions are equal everywhere -/
+def SF.same {α} [DecidableEq α] (x y : SF α) : Bool := (SF.zip (fun a b => decide (a = b)) x y).all id
+
+theorem SF.same_at {α} [DecidableEq α] (x y : SF α) (h : x.same y = true) (cp : Nat) : x.at cp = y.at cp := by
+  have := SF.all_at id _ h cp
+  simpa using this
+
+/-- first code point where the predicate fails (counter-example search when a fact no longer checks) -/
+def SF.firstBad {α} (p : α → Bool) (x : SF α) : Option Nat :=
+  if !(defaultUnused (dedup x.bps) || p x.d) then some 0 else ((dedup x.bps).find? (fun e => !p e.2)).map (·.1)
 
 end Precis.Step
